@@ -6,12 +6,6 @@ process, so that a case is one complete "process lifetime": its result cannot
 depend on which cases the worker ran before, and a replay in a fresh
 interpreter starts from the same state.
 """
-import os
-import pickle
-import select
-import signal
-import sys
-
 from ..execsim import CaseResult, HarnessError
 
 _STATE = {}
@@ -46,51 +40,12 @@ def run_case(draws, prop, tier="quick"):
     if "pool" not in _STATE:
         raise HarnessError("hist engine not prepared")
     mod = _machine(prop)
-    r, w = os.pipe()
-    pid = os.fork()
-    if pid == 0:
-        code = 0
-        try:
-            os.close(r)
-            try:
-                res = mod.run_machine(draws, _STATE, tier)
-                payload = ("ok", res, draws.recorded())
-            except BaseException as err:  # noqa: B902
-                import traceback
-                payload = ("error", "".join(traceback.format_exception(err)),
-                           None)
-            with os.fdopen(w, "wb") as f:
-                pickle.dump(payload, f, protocol=pickle.HIGHEST_PROTOCOL)
-        except BaseException:  # noqa: B902
-            code = 1
-        finally:
-            sys.stdout.flush()
-            sys.stderr.flush()
-            os._exit(code)
-    os.close(w)
-    chunks = []
-    timeout = 120.0
+    from ..forkcase import ChildFailure, run_in_child
     try:
-        while True:
-            ready, _, _ = select.select([r], [], [], timeout)
-            if not ready:
-                os.kill(pid, signal.SIGKILL)
-                os.waitpid(pid, 0)
-                raise HarnessError("hist case child timed out")
-            b = os.read(r, 1 << 16)
-            if not b:
-                break
-            chunks.append(b)
-    finally:
-        os.close(r)
-    os.waitpid(pid, 0)
-    if not chunks:
-        raise HarnessError("hist case child produced no result")
-    status, res, recorded = pickle.loads(b"".join(chunks))
-    if status != "ok":
-        raise HarnessError("hist machine failed:\n%s" % res)
-    draws.adopt(recorded)
-    return res
+        return run_in_child(lambda: mod.run_machine(draws, _STATE, tier),
+                            draws, timeout=120.0)
+    except ChildFailure as err:
+        raise HarnessError("hist machine failed:\n%s" % err)
 
 
 def evidence_meta(prop):
